@@ -358,12 +358,30 @@ struct RawMethod {
     why: String,
 }
 
-fn raw_methods(file: &syn::File, ty: &str) -> Result<Vec<RawMethod>, String> {
+/// all `impl` blocks of a file, also inside (non-test) inline modules
+fn impls_of<'a>(items: &'a [syn::Item], out: &mut Vec<&'a syn::ItemImpl>) {
+    for it in items {
+        match it {
+            syn::Item::Impl(i) if !is_cfg_test(&i.attrs) => out.push(i),
+            syn::Item::Mod(m) if !is_cfg_test(&m.attrs) => {
+                if let Some((_, items)) = &m.content {
+                    impls_of(items, out);
+                }
+            }
+            _ => {}
+        }
+    }
+}
+
+fn raw_methods(files: &[&syn::File], ty: &str) -> Result<Vec<RawMethod>, String> {
     let mut out: Vec<(RawMethod, Vec<String>)> = vec![];
-    for it in &file.items {
-        let syn::Item::Impl(i) = it else { continue };
+    let mut impls = vec![];
+    for f in files {
+        impls_of(&f.items, &mut impls);
+    }
+    for i in impls {
         let self_ty = i.self_ty.to_token_stream().to_string().replace(' ', "");
-        if self_ty != ty {
+        if self_ty != ty && !self_ty.starts_with(&format!("{ty}<")) {
             continue;
         }
         for ii in &i.items {
@@ -391,9 +409,6 @@ fn raw_methods(file: &syn::File, ty: &str) -> Result<Vec<RawMethod>, String> {
                 scan.self_calls,
             ));
         }
-    }
-    if out.is_empty() {
-        return Err(format!("no inherent methods of {ty} found"));
     }
     // a method that calls a writing method on `self` writes
     loop {
@@ -750,13 +765,16 @@ pub fn c12sharing(repo: &Path) -> Result<String, String> {
     let mut files = vec![];
     rs_files(&repo.join("src"), &mut files)?;
     let mut decls = Decls::default();
+    let mut parsed: Vec<syn::File> = vec![];
     for p in &files {
         let rel = p.strip_prefix(repo).unwrap_or(p).to_string_lossy().to_string();
         let text = std::fs::read_to_string(p).map_err(|e| format!("{rel}: {e}"))?;
         let file = syn::parse_file(&text).map_err(|e| format!("cannot parse {rel}: {e}"))?;
         decls.cur_file = rel;
         decls.visit_file(&file);
+        parsed.push(file);
     }
+    let all_files: Vec<&syn::File> = parsed.iter().collect();
     if !decls.renames.is_empty() {
         return Err(format!("renamed ownership / lock types (shape by name is not decidable): {}", decls.renames.join("; ")));
     }
@@ -792,11 +810,19 @@ pub fn c12sharing(repo: &Path) -> Result<String, String> {
         let send = decls.unsafe_impls.iter().any(|(t, n, _)| t == "Send" && n == ty);
         let sync = decls.unsafe_impls.iter().any(|(t, n, _)| t == "Sync" && n == ty);
         let file = decls.unsafe_impls.iter().find(|(_, n, _)| n == ty).map(|x| x.2.clone()).unwrap_or_default();
+        // `&self` methods of the type (plain impls; macro-generated ones are not visible) that write
+        let shared_writers: Vec<String> = raw_methods(&all_files, ty)?
+            .into_iter()
+            .filter(|m| m.recv == ".shared" && m.writes)
+            .map(|m| format!("{} ({})", m.name, m.why))
+            .collect();
         unsafe_lines.push(format!(
-            "    -- {ty} ({file}): fields {}\n    {{ ty := {}, send := {send}, sync := {sync}, fields := [{}] }}",
+            "    -- {ty} ({file}): fields {}; &self methods that write: [{}]\n    {{ ty := {}, send := {send}, sync := {sync}, fields := [{}], sharedWriters := {} }}",
             names.join(", "),
+            shared_writers.join("; "),
             ty_tag(ty),
-            shapes.iter().map(|s| s.lean()).collect::<Vec<_>>().join(", ")
+            shapes.iter().map(|s| s.lean()).collect::<Vec<_>>().join(", "),
+            shared_writers.len()
         ));
         if ty == "TypedFunc" {
             typed_func_fields = Some((names, shapes));
@@ -811,7 +837,10 @@ pub fn c12sharing(repo: &Path) -> Result<String, String> {
     // the cell is described without inlining RawList (its fields are listed among the unsafe types)
     let empty = BTreeMap::new();
     let cell = Shaper { structs: &empty }.shape(cell_ty, &[], &mut vec![])?;
-    let methods = raw_methods(&list, "RawList")?;
+    let methods = raw_methods(&[&list], "RawList")?;
+    if methods.is_empty() {
+        return Err("no inherent methods of RawList found in src/value/list.rs".into());
+    }
     let raw_names: Vec<String> = methods.iter().map(|m| m.name.clone()).collect();
     let mut walk = FnWalk { path: vec![], sites: vec![], raw_names: &raw_names, errors: vec![], skip_impl_of: "RawList" };
     walk.visit_file(&list);
